@@ -2,6 +2,7 @@
 (explicit keyword, omitted-but-defaulted with a bad declared default, *args element, **kwargs value) and bodies scripted
 to return a non-conforming value; side-effect journal written by the generated bodies."""
 import _call_common as C
+import _gen_common as G
 
 RULE = ('generated programs as in C05 (all callable kinds, sync and async, stacked decorators, needles in the body text); keyword calls in which '
         'one value at a random position is corrupted (45% of calls), declared defaults that do not conform, *args / **kwargs values, bodies '
@@ -15,17 +16,24 @@ FINDINGS = [('namedtuple', 'namedtupleStructuralArgument'), ('untruthful', None)
 def cases(rng, tier):
     n = 1500 if tier == 'quick' else 12000
     return C.build_cases(rng, n, calls_per=3, style='kw', tag='c03a') + C.build_cases(rng, n // 3, calls_per=2, style=None, tag='c03b') \
-        + C.scenario_cases(rng, n // 8, style='kw', tag='c03sc') + C.scenario_cases(rng, n // 16, tag='c03sd')
+        + C.scenario_cases(rng, n // 8, style='kw', tag='c03sc') + C.scenario_cases(rng, n // 16, tag='c03sd') \
+        + G.gen_cases(rng, tier)           # generator functions: yield / send / return / throw / close interactions (GenWrap model)
 
 
 def search(rng, tier, near):
-    return C.build_cases(rng, 900, calls_per=3, style='kw', tag='c03s')
+    return C.build_cases(rng, 900, calls_per=3, style='kw', tag='c03s') + G.search_cases(rng, tier, near)
 
 
-run_impl = C.run_impl_calls
+def run_impl(cases):
+    return G.run_impl_mixed(cases, C.run_impl_calls)
+
+
+extra_coverage = G.coverage
 
 
 def judge(case, impl, model):
+    if case['m'] == G.MODEL:
+        return G.judge_guard(case, impl, model)
     corr, why = C.correspondence(case, impl, model)
     s = model['spec']
     out = C.norm_out(impl['out'])
